@@ -74,6 +74,12 @@ type Case struct {
 	Snap    Snapshot `json:"snapshot"`
 	Planner string   `json:"planner"` // balance-all | balance-each | evacuate | fix
 	Arg     string   `json:"arg,omitempty"`
+	// repair domain (fixdomain.go): which kind of replica was lost and the free-slot pattern
+	Domain  string `json:"domain,omitempty"`
+	Lost    string `json:"lost,omitempty"`
+	Pattern string `json:"pattern,omitempty"`
+
+	fixedSteps []step // a plan already recovered for this case (evaluate then does not re-plan)
 }
 
 var moveRe = regexp.MustCompile(`^  moving (\S*) volume (?:([A-Za-z]+)_)?(\d+) (\S+) => (\S+)$`)
@@ -145,7 +151,15 @@ func plan(cp *capture, c *Case) (steps []step, final map[uint32][]shell.ReplicaL
 
 // evaluate runs one case; returns the violated clause (or ""), message, outcome note.
 func evaluate(cp *capture, c *Case) (clause, msg, note string) {
-	steps, final, notes, err := plan(cp, c)
+	var steps []step
+	var final map[uint32][]shell.ReplicaLocTopoV
+	var notes []string
+	var err error
+	if c.fixedSteps != nil {
+		steps = c.fixedSteps
+	} else {
+		steps, final, notes, err = plan(cp, c)
+	}
 	if err != nil {
 		notes = append(notes, "planner-error")
 	}
@@ -215,6 +229,31 @@ func features(c *Case, cl *cluster, steps []step, i int, clause string) string {
 			return ":replication-000"
 		}
 		return ":replicated-volume"
+	}
+	if clause == "repair-copy-violates-placement" {
+		// replication, what the new copy is relative to the copies that were there (a data center
+		// without a copy / a rack without a copy / a rack that has one), and - in the repair domain -
+		// which kind of copy had been lost
+		v := cl.vol(st.Vid)
+		dst := cl.s.locOf(cl.byId[st.Dst])
+		lvl := "new-datacenter"
+		for _, l := range cl.locs(st.Vid) {
+			if l.node == dst.node {
+				continue
+			}
+			if l.rack == dst.rack {
+				lvl = "rack-with-copy"
+				break
+			}
+			if l.dc == dst.dc {
+				lvl = "new-rack-in-datacenter-with-copy"
+			}
+		}
+		f := fmt.Sprintf(":rp=%03d:dst=%s", v.Rp, lvl)
+		if c.Lost != "" {
+			f += ":lost=" + c.Lost
+		}
+		return f
 	}
 	if clause != "target-without-free-slot" {
 		return ""
@@ -497,6 +536,10 @@ func run(r *mc.Run) {
 		if err := r.ReplayCase(&c); err != nil {
 			mc.Fatal("replay: %v", err)
 		}
+		if c.Domain == "repair" {
+			oneFix(r, cp, &c, map[string]int{})
+			return
+		}
 		one(r, cp, &c)
 		return
 	}
@@ -547,6 +590,18 @@ func run(r *mc.Run) {
 			{shapes: threeRacks, maxMenu: []int{2, 4}, nVols: 3, rps: []int{0, 10}, kinds: []string{"ok"}, mixedRO: true},
 		}
 	}
+	r.Parallel("repair", 16, func(shard, n int) {
+		seen := map[string]int{}
+		var cnt int64
+		enumerateFix(r.Thorough(), shard, n, func(c *Case) {
+			if !r.Begin(c) {
+				return
+			}
+			cnt++
+			oneFix(r, cp, c, seen)
+		})
+		r.Add("cases:repair-domain", cnt)
+	})
 	for pi, b := range passes {
 		b := b
 		r.Parallel(fmt.Sprintf("pass%d", pi), 16, func(shard, n int) {
